@@ -54,24 +54,30 @@ type cS string
 type cN int
 
 var (
-	tyT1   = reflect.TypeOf(cT1{})
-	tyPT1  = reflect.TypeOf(&cT1{})
-	tyPT2  = reflect.TypeOf(&cT2{})
-	tyT2   = reflect.TypeOf(cT2{})                      // by value: implements nothing (its methods have pointer receivers)
-	tySS   = reflect.TypeOf([]cS(nil))                  // also the type of a variadic ...cS parameter
-	tyRV   = reflect.TypeOf(reflect.Value{})            // a service whose own type is reflect.Value is a service like any other
-	tyAny  = reflect.TypeOf((*interface{})(nil)).Elem() // the empty interface: every registered type implements it
-	tyT3   = reflect.TypeOf(cT3{})
-	tyPT4  = reflect.TypeOf(&cT4{})
-	tyS    = reflect.TypeOf(cS(""))
-	tyN    = reflect.TypeOf(cN(0))
-	tyCh   = reflect.TypeOf(make(chan int))
-	tyRCh  = reflect.TypeOf((<-chan int)(nil))
-	tyI1   = reflect.TypeOf((*cI1)(nil)).Elem()
-	tyI2   = reflect.TypeOf((*cI2)(nil)).Elem()
-	tyI12  = reflect.TypeOf((*cI12)(nil)).Elem()
-	tyI3   = reflect.TypeOf((*cI3)(nil)).Elem()
-	c04Tys = []reflect.Type{tyT1, tyPT1, tyPT2, tyT3, tyPT4, tyS, tyN, tyCh, tyRCh, tyI1, tyI2, tyI12, tyI3, tyT2, tySS, tyRV, tyAny}
+	tyT1  = reflect.TypeOf(cT1{})
+	tyPT1 = reflect.TypeOf(&cT1{})
+	tyPT2 = reflect.TypeOf(&cT2{})
+	tyT2  = reflect.TypeOf(cT2{})                      // by value: implements nothing (its methods have pointer receivers)
+	tySS  = reflect.TypeOf([]cS(nil))                  // also the type of a variadic ...cS parameter
+	tyRV  = reflect.TypeOf(reflect.Value{})            // a service whose own type is reflect.Value is a service like any other
+	tyAny = reflect.TypeOf((*interface{})(nil)).Elem() // the empty interface: every registered type implements it
+	tyT3  = reflect.TypeOf(cT3{})
+	tyPT4 = reflect.TypeOf(&cT4{})
+	tyS   = reflect.TypeOf(cS(""))
+	tyN   = reflect.TypeOf(cN(0))
+	tyCh  = reflect.TypeOf(make(chan int))
+	tyRCh = reflect.TypeOf((<-chan int)(nil))
+	tyI1  = reflect.TypeOf((*cI1)(nil)).Elem()
+	tyI2  = reflect.TypeOf((*cI2)(nil)).Elem()
+	tyI12 = reflect.TypeOf((*cI12)(nil)).Elem()
+	tyI3  = reflect.TypeOf((*cI3)(nil)).Elem()
+	// an unnamed struct type: it has no name, and it has methods (promoted from the pointer it embeds) - it implements
+	// cI1, cI2 and cI12 like any named type would
+	tyU = reflect.TypeOf(struct {
+		*cT2
+		Hits int
+	}{})
+	c04Tys = []reflect.Type{tyT1, tyPT1, tyPT2, tyT3, tyPT4, tyS, tyN, tyCh, tyRCh, tyI1, tyI2, tyI12, tyI3, tyT2, tySS, tyRV, tyAny, tyU}
 )
 
 func tyName(t reflect.Type) string { return t.String() }
@@ -87,7 +93,8 @@ func tyByName(s string) reflect.Type {
 
 // injCase: registrations over nested scopes and one invocation (C04, part A).
 type injCase struct {
-	Scopes   int      `json:"scopes"` // 1..3, scope 0 outermost, the last one is the nearest
+	Scopes   int      `json:"scopes"`                            // 1..3, scope 0 outermost, the last one is the nearest
+	Pad      int      `json:"empty_scopes_in_between,omitempty"` // this many empty injectors stand between each scope and its parent, and between the invoking injector and the nearest scope: an empty scope changes nothing, however many there are
 	Regs     []injReg `json:"registrations"`
 	Later    []injReg `json:"later_registrations,omitempty"`         // applied after the first invocation; then the handler is invoked again
 	Params   []string `json:"params"`                                // parameter types of the handler
@@ -141,6 +148,11 @@ func mkValue(impl reflect.Type, tag string, chans map[string]string) reflect.Val
 		return reflect.ValueOf([]cS{cS(tag), "second"})
 	case tyRV:
 		return reflect.ValueOf(reflect.ValueOf(cS(tag)))
+	case tyU:
+		return reflect.ValueOf(struct {
+			*cT2
+			Hits int
+		}{&cT2{tag}, 1})
 	case tyT3:
 		return reflect.ValueOf(cT3{tag})
 	case tyPT4:
@@ -197,6 +209,11 @@ func tagOfValue(v reflect.Value, chans map[string]string) string {
 		return string(x[0])
 	case cT3:
 		return x.Tag
+	case struct {
+		*cT2
+		Hits int
+	}:
+		return x.Tag
 	case *cT4:
 		return x.Tag
 	case cS:
@@ -234,6 +251,9 @@ func implsFor(key reflect.Type) []reflect.Type {
 
 func genInjCase(rng *rand.Rand) *injCase {
 	c := &injCase{Scopes: 1 + rng.Intn(3), PanicTA: rng.Intn(15) == 0}
+	if rng.Intn(30) == 0 {
+		c.Pad = []int{1, 7, 15, 16, 31, 32, 33, 63, 64, 65, 127, 128, 129, 200, 255, 256, 257, 1000}[rng.Intn(18)]
+	}
 	n := 0
 	nregs := rng.Intn(9)
 	if rng.Intn(40) == 0 {
@@ -591,6 +611,16 @@ type applyTarget struct {
 	M cN   `Inject:""`
 }
 
+// padScopes puts n empty injectors under parent and returns the innermost.
+func padScopes(parent inject.Injector, n int) inject.Injector {
+	for ; n > 0; n-- {
+		e := inject.New()
+		e.SetParent(parent)
+		parent = e
+	}
+	return parent
+}
+
 func buildScopes(c *injCase, chans map[string]string) ([]inject.Injector, scopeTable) {
 	scopes := make([]inject.Injector, c.Scopes)
 	tbl := make(scopeTable, c.Scopes)
@@ -598,7 +628,7 @@ func buildScopes(c *injCase, chans map[string]string) ([]inject.Injector, scopeT
 		scopes[i] = inject.New()
 		tbl[i] = map[reflect.Type]string{}
 		if i > 0 {
-			scopes[i].SetParent(scopes[i-1])
+			scopes[i].SetParent(padScopes(scopes[i-1], c.Pad))
 		}
 	}
 	for _, rg := range c.Regs {
@@ -633,6 +663,10 @@ func judgeInj(w *core.W, c *injCase) {
 	chans := map[string]string{}
 	scopes, tbl := buildScopes(c, chans)
 	nearest := scopes[len(scopes)-1]
+	if c.Pad > 0 {
+		nearest = padScopes(nearest, c.Pad) // later registrations still go to the real scopes
+		w.Count("deep-scope-chains")
+	}
 	for _, rg := range c.Regs {
 		if rg.Nil {
 			w.Count("typed-nil-registered")
